@@ -640,9 +640,14 @@ class EnsembleServlet(Servlet):
 
     def stop(self):
         assert self._started
+        self._qin.put(None)
+        self._threads[1].join()
+        # The thread `_enqueue` has now passed every pending input, and then the end marker,
+        # on to the members. Stopping the members first would let their end markers
+        # overtake inputs that `_enqueue` is still forwarding, and that thread could
+        # then block forever on the input pipe of a member whose workers are gone.
         for s in self._servlets:
             s.stop()
-        self._qin.put(None)
         for t in self._threads:
             t.join()
         self._reset()
@@ -714,10 +719,11 @@ class SwitchServlet(Servlet):
 
     def stop(self):
         assert self._started
-        for s in self._servlets:
-            s.stop()
         self._qin.put(None)
         self._thread_enqueue.join()
+        # See `EnsembleServlet.stop` for why this goes before stopping the members.
+        for s in self._servlets:
+            s.stop()
         self._reset()
         self._started = False
 
